@@ -33,6 +33,22 @@ fn arg<'a>(args: &'a [String], name: &str) -> Option<&'a str> {
         .map(|s| s.as_str())
 }
 
+/// Runs a trace; for thr/burst also returns the trace completed with the schedule that
+/// was actually taken (so that it replays without any PRNG).
+pub fn run_trace_full(trace: &Trace) -> (RunReport, Trace) {
+    match trace.engine {
+        Engine::Thr | Engine::Burst => {
+            let (rep, schedule) = thr::run_thr(trace);
+            let mut t = trace.clone();
+            if t.schedule.is_empty() {
+                t.schedule = schedule;
+            }
+            (rep, t)
+        }
+        _ => (run_trace(trace), trace.clone()),
+    }
+}
+
 pub fn run_trace(trace: &Trace) -> RunReport {
     match trace.engine {
         Engine::Seq => {
@@ -200,8 +216,8 @@ fn main() {
                     writeln!(o, "S {}", run).ok();
                     o.flush().ok();
                 }
-                let trace = generate(&pop, seed, run);
-                let rep = run_trace(&trace);
+                let trace0 = generate(&pop, seed, run);
+                let (rep, trace) = run_trace_full(&trace0);
                 sum.evaluations += 1;
                 sum.steps += rep.steps;
                 sum.ops += rep.ops;
